@@ -35,6 +35,7 @@ func regCmd(args []string) error {
 	honest := fs.Bool("honest", false, "uploads only as a well-behaved caller drives them (needed for stacks with an HTTP hop)")
 	fs.Parse(args)
 	genRetireAfterCommit = strings.Contains(*stacks, "http")
+	genBadNames = *stacks == "mem"
 	f, err := os.Create(*out)
 	if err != nil {
 		return err
